@@ -56,9 +56,12 @@ CHECKS = {
             'rerun_consistent (first sentence of C04, full strength): for every carried-over environment satisfying '
             'EnvOK/ClockOK, at return no task is DONE unless every DONE dependency ended before it started and no hard '
             'dependency is FAILED/SKIPPED; rerun_envcons + EnvCons_sub: the condition is inherited by what the next run '
-            'starts from (history induction); decided_final_frozen. Second sentence (fresh_not_rerun: an up-to-date DONE '
-            'task whose transitive dependencies are DONE and not re-executed is not executed and its entry untouched) is '
-            'checked by the oracle on the real code on every run; theorem in progress.',
+            'starts from (history induction); decided_final_frozen. Second sentence: fresh_not_rerun — for every '
+            'dependency-closed set of tasks recorded DONE and up to date in the carried-over environment (FreshSet), in '
+            'every state of every execution no task of the set has been executed and its entry is exactly the one carried '
+            'over (invariant InvF, decide_fresh); freshSet_of_envcons: in a history of runs the up-to-date hypothesis '
+            'follows from rerun_envcons. The property words the hypothesis as "dependencies are not re-executed"; the '
+            'theorem uses the static condition that implies it (stale dependencies would be re-executed).',
             'Trusted: as C01; time.time() is modelled as a strictly increasing integer clock (each read is a scheduling '
             'point); persistence between runs (write_env/read_env) is C14\'s model, here the carried-over Env is passed '
             'in memory through merge_done_tasks.',
